@@ -685,3 +685,135 @@ def c20_r4(ctx):
         for c in fn.calls:
             if c.trait == "printer::Printer" and c.name == "print_single_banner_line":
                 ctx.viol((fn.id, "status-elsewhere"), "status line printed outside the join loop of build", c.where)
+
+
+@rule("C03.R4", floor=4)
+def c03_r4(ctx):
+    """Wiring: for each source index of each node exactly one channel is created; its
+    receiver is pushed into the entry of the node being wired (outer loop variable); its
+    sender into leaves[i] / nodes[i] where i is field 0 of the matched SourceIndex of this
+    iteration, and the sub-index stored beside the sender is field 1 of that same Pair."""
+    fs = [f for f in ctx.P.fns.values() if not f.body.get("in_test") and f.calls_to("std::sync::mpsc::channel")]
+    ctx.need(len(fs) == 1, "the function that creates the channels")
+    f = fs[0]
+    ctx.saw(f)
+    chs = f.calls_to("std::sync::mpsc::channel")
+    ctx.inst("channel()", chs[0].where)
+    if len(chs) != 1:
+        ctx.viol((f.id, "channel-sites"), "channels are created at %d sites (one per dependence edge expected)" % len(chs), chs[1].where)
+        return
+    ch = chs[0]
+    lps = [lp for lp in f.loops() if ch.bb in lp["body"]]
+    if len(lps) != 2:
+        ctx.viol((f.id, "wiring-loops"), "channel creation is not nested in (nodes x source indices)", ch.where)
+        return
+    inner = min(lps, key=lambda l: len(l["body"]))
+    outer = max(lps, key=lambda l: len(l["body"]))
+    if not f.every_iteration_calls(inner, [ch.bb]) or f.loop_exits(inner) or f.loop_exits(outer):
+        ctx.viol((f.id, "edge-without-channel"), "some dependence edge gets no channel (the dependent would wait forever or not at all)", ch.where)
+    S = f._call_origins(ch, (("field", 0),), frozenset())
+    Rv = f._call_origins(ch, (("field", 1),), frozenset())
+
+    def range_over_len(lp, coll_pred):
+        for o in lp["iter"]:
+            if o[0][0] != "agg" or not o[0][4].endswith("Range::Range"):
+                return False
+            rv = f.blocks[o[0][2]]["stmts"][o[0][3]]["rv"]
+            if not (rv["ops"][0]["k"] == "const" and rv["ops"][0].get("bits") == "0"):
+                return False
+            ok = False
+            for h in f.origins_of_operand(rv["ops"][1]):
+                if h[0][0] == "call" and h[0][3].endswith("::len") and coll_pred(f.call_at[h[0][2]].args[0]):
+                    ok = True
+            if not ok:
+                return False
+        return True
+
+    def idx_shape(op):
+        """operand = index(_mut)(coll, i).tail  ->  (coll vars, index origins, tail steps)"""
+        out = []
+        for o in f.origins_of_operand(op):
+            if o[0][0] == "call" and "Index" in o[0][3]:
+                ix = f.call_at[o[0][2]]
+                out.append((frozenset(f.vars_of_operand(ix.args[0])), frozenset(f.origins_of_operand(ix.args[1])), o[1:], ix))
+            else:
+                out.append((None, None, o, None))
+        return out
+    # the collections
+    ret = [s for s in f.constructs("build::ChannelPack")]
+    ctx.need(len(ret) == 1, "ChannelPack construction")
+    names = ret[0][2]["kind"]["fields"]
+    leaves_v = frozenset(f.vars_of_operand(ret[0][2]["ops"][names.index("leaves")]))
+    nodes_v = frozenset(f.vars_of_operand(ret[0][2]["ops"][names.index("nodes")]))
+    if not range_over_len(outer, lambda a: frozenset(f.vars_of_operand(a)) == nodes_v):
+        ctx.viol((f.id, "outer-range"), "the outer wiring loop is not 0..nodes.len()", f.where(outer["header"]))
+    oe = frozenset(outer["elem"])
+    ie = frozenset(inner["elem"])
+
+    def is_source_indices_of_this_node(a):
+        sh = idx_shape(a)
+        return len(sh) == 1 and sh[0][0] == nodes_v and sh[0][1] == oe and sh[0][2] == (("field", 0), ("field", "source_indices"))
+    if not range_over_len(inner, is_source_indices_of_this_node):
+        ctx.viol((f.id, "inner-range"), "the inner wiring loop is not 0..source_indices.len() of the node being wired", f.where(inner["header"]))
+    # the SourceIndex examined
+    si = None
+    for bb in inner["body"]:
+        info = f.switch_info(bb)
+        if info and info["kind"] == "variant" and info.get("adt") == "sort::SourceIndex" and not f.is_drop_switch(bb):
+            si = info
+    ctx.need(si is not None, "match on the SourceIndex")
+    si_org = si["origins"]
+    ok_si = False
+    for o in si_org:
+        if o[0][0] == "call" and "Index" in o[0][3] and len(o) == 1:
+            ix = f.call_at[o[0][2]]
+            if is_source_indices_of_this_node(ix.args[0]) and frozenset(f.origins_of_operand(ix.args[1])) == ie:
+                ok_si = True
+    if not ok_si:
+        ctx.viol((f.id, "wrong-source-index"), "the SourceIndex examined is not source_indices[k] of the node being wired for this iteration's k", f.where(si["bb"]))
+    pair_e = f.edges_of_value_variant(si_org, "Pair")
+    leaf_e = f.edges_of_value_variant(si_org, "Leaf")
+    pushes = [p for p in f.calls_to("std::vec::Vec::<T, A>::push") if p.bb in inner["body"]]
+    recv_push = []
+    send_push = []
+    for p in pushes:
+        vo = f.origins_of_operand(p.args[1])
+        tgt = idx_shape(p.args[0])
+        if vo == Rv:
+            ctx.inst("receiver push", p.where)
+            if len(tgt) == 1 and tgt[0][0] == nodes_v and tgt[0][1] == oe and tgt[0][2] == (("field", 2),):
+                recv_push.append(p)
+                ctx.ok()
+            else:
+                ctx.viol((f.id, "receiver-misplaced"), "a receiver is not given to the node being wired", p.where)
+        elif vo == S:
+            ctx.inst("leaf sender push", p.where)
+            want_i = frozenset(o + (("variant", "Leaf"), ("field", 0)) for o in si_org)
+            if len(tgt) == 1 and tgt[0][0] == leaves_v and tgt[0][1] == want_i and tgt[0][2] == (("field", 1),) and f.dominated_by_edges(p.bb, leaf_e):
+                send_push.append(p)
+                ctx.ok()
+            else:
+                ctx.viol((f.id, "leaf-sender-misplaced"), "a sender is not given to the leaf named by this SourceIndex::Leaf", p.where)
+        else:
+            # tuple (sub_index, sender)
+            agg = [o for o in vo if o[0][0] == "agg" and o[0][4] == "tuple"]
+            if len(agg) == 1 and len(vo) == 1:
+                rv = f.blocks[agg[0][0][2]]["stmts"][agg[0][0][3]]["rv"]
+                a0 = f.origins_of_operand(rv["ops"][0])
+                a1 = f.origins_of_operand(rv["ops"][1])
+                if a1 == S:
+                    ctx.inst("node sender push", p.where)
+                    want_i = frozenset(o + (("variant", "Pair"), ("field", 0)) for o in si_org)
+                    want_s = {o + (("variant", "Pair"), ("field", 1)) for o in si_org}
+                    if a0 != want_s:
+                        send_push.append(p)
+                        ctx.viol((f.id, "stored-subindex"), "the sub-index stored beside the sender is not field 1 of this SourceIndex::Pair (is %s): the dependent would be sent the hash of another target of the producer" % sorted(map(fmt_origin, a0)), p.where)
+                    elif not (len(tgt) == 1 and tgt[0][0] == nodes_v and tgt[0][1] == want_i and tgt[0][2] == (("field", 1),) and f.dominated_by_edges(p.bb, pair_e)):
+                        ctx.viol((f.id, "node-sender-misplaced"), "a sender is not given to the producer named by this SourceIndex::Pair", p.where)
+                    else:
+                        send_push.append(p)
+                        ctx.ok()
+    if not recv_push or not f.every_iteration_calls(inner, [p.bb for p in recv_push]):
+        ctx.viol((f.id, "receiver-dropped"), "on some path the receiver of a new channel is not kept (the producer's send would fail)", ch.where)
+    if not send_push or not f.every_iteration_calls(inner, [p.bb for p in send_push]):
+        ctx.viol((f.id, "sender-dropped"), "on some path the sender of a new channel is dropped (the dependent's recv would fail)", ch.where)
